@@ -155,6 +155,40 @@ def check_carriers(p, s, col):
                           bucket=f"{c}|{o[1] if o[0] == 'exc' else 'value'}|{ref[1] if ref[0] == 'exc' else 'value'}"[:100])
 
 
+BARE = ["list", "tuple", "set", "frozenset", "collections.deque", "typing.List", "typing.Tuple", "typing.Set", "typing.Sequence",
+        "typing.Collection", "typing.MutableSequence", "dict", "typing.Dict", "typing.Mapping"]
+BARE_TEXTS = ["1", "0", "-7", "1.5", "null", "true", "false", "[1, 2]", "(1, 2)", "[]", "{}", "abc", "", " ", '"x"', "'x'", '{"a": 1}',
+              "{'a': 1}", "[1, [2, 3]]", "1,2", "\ufeff[1]", "[1] ", "None", "True", "é", "[\"é\"]", "12345678901234567890123"]
+
+
+def check_bare(col, only=None):
+    """unparameterised collections and mappings (not in U as *members*, but annotations a caller may pass): the carriers of one
+    text agree here too - the routine casts what the text decodes to, and what it does when that fails must not depend on the
+    carrier either"""
+    import collections
+    import typing
+    ns_ = {"collections": collections, "typing": typing}
+    for expr in BARE:
+        T = eval(expr, ns_)  # noqa: S307
+        for s in BARE_TEXTS:
+            if only and (expr, s) != only:
+                continue
+            tl.clear_all()
+            outs = {}
+            for c in inputs.CARRIERS:
+                col.ev()
+                outs[c] = outcome(tl.unmarshal, T, inputs.carry(s, c))
+                col.nt(f"bare|{expr}|{s}|{c}")
+            col.label("bare-collection-target")
+            ref = outs["str"]
+            for c, o in outs.items():
+                same = (o == ref) if ref[0] == "ok" else (o[0] == "exc")
+                if not same:
+                    col.violation("carriers-agree", {"bare": expr, "text": s, "carrier": c},
+                                  f"unmarshal({expr}, {s!r}): str -> {_d(ref)}, {c} -> {_d(o)}",
+                                  bucket=f"bare|{c}|{o[1] if o[0] == 'exc' else 'value'}|{ref[1] if ref[0] == 'exc' else 'value'}"[:100])
+
+
 def _gen(s):
     """compact generator expression for long repetitive strings"""
     return repr(s) if len(s) < 400 else f"LONG[{LONG.index(s)}]" if s in LONG else repr(s)
@@ -363,10 +397,14 @@ def plan(tier, seed):
     shards += [{"kind": "progs", "seed": seed * 1000 + 80 + k, "n": 400 if tier == "quick" else 8000, "depth": 1} for k in range(4)]
     # unions of leaf types: one input class, several members that may take it
     shards += [{"kind": "progs", "seed": seed * 1000 + 90 + k, "n": 150 if tier == "quick" else 3000, "depth": 1, "unions": True} for k in range(4)]
+    shards.append({"kind": "bare"})
     return shards
 
 
 def run_shard(shard, col):
+    if shard["kind"] == "bare":
+        check_bare(col)
+        return
     if shard["kind"] == "direct":
         core.drive(direct_case(), lambda c: check_direct(*c, col), n=shard["n"], seed=shard["seed"], col=col)
         return
@@ -382,7 +420,9 @@ def _text(case):
 
 
 def replay(clause, case, col):
-    if "kind" in case:
+    if "bare" in case:
+        check_bare(col, only=(case["bare"], case["text"]))
+    elif "kind" in case:
         check_direct(case["kind"], _text(case), case["carrier"], col)
     elif "wire" in case:
         def f(p):
